@@ -1,6 +1,7 @@
 import GormModel.Drv.Util
 import GormModel.Model.Upsert
 import GormModel.Model.UpsertClause
+import GormModel.Model.UpsertKeys
 open Lean
 namespace Gorm.Drv
 open Gorm.Upsert
@@ -198,6 +199,96 @@ def parseMods (j : Json) : Option Mods := do
   let a ← jArr? j
   some { star := ← jBool? (arg a 0), sel := ← parseNats (arg a 1), om := ← parseNats (arg a 2), omitOther := ← jBool? (arg a 3) }
 
+/-! round 3: `c16.wide` — Model.UpsertKeys -/
+
+def parseKRow (nk : Nat) (j : Json) : Option UpsertK.KRow := do
+  let a ← jArr? j
+  let k ← (← jArr? (arg a 0)).toList.mapM jNat?
+  let n ← jNat? (arg a 1)
+  let q ← jNat? (arg a 2)
+  let d ← jNat? (arg a 3)
+  if k.length != nk then none
+  some { key := k, pay := [n, q], del := d != 0 }
+
+def kRowJ (r : UpsertK.KRow) : Json :=
+  Json.arr #[natListJ r.key, natJ (r.pay.getD 0 0), natJ (r.pay.getD 1 0), natJ (if r.del then 1 else 0)]
+
+def parseKRows (nk : Nat) (j : Json) : Option (List UpsertK.KRow) := do
+  (← jArr? j).toList.mapM (parseKRow nk)
+
+def parseTriple (j : Json) : Option (Nat × Nat × Nat) := do
+  let a ← jArr? j
+  some (← jNat? (arg a 0), ← jNat? (arg a 1), ← jNat? (arg a 2))
+
+def kErrS : UpsertK.KErr → String
+  | .ok => "ok" | .unique => "unique" | .other => "other"
+
+def updShape (table : Nat) (unscoped : Bool) (binds : Nat) : String :=
+  "T" ++ toString table ++ "|" ++ (if unscoped then "unscoped" else "scoped") ++ "|" ++ toString binds
+
+def maxKey (t : UpsertK.Tbl) : Nat := t.foldl (fun m r => max m (r.key.headD 0)) 0
+
+def wideOut (w : UpsertK.World) (val : Option UpsertK.KRow) (err : String) (upd : List String) : Json :=
+  Json.mkObj [("main", Json.arr (w.main.map kRowJ).toArray), ("arch", Json.arr (w.arch.map kRowJ).toArray),
+    ("val", match val with | some r => kRowJ r | none => Json.null), ("err", Json.str err), ("upd", strListJ upd)]
+
+def runWide (o : Json) : Option Json := do
+  let nk ← jNat? (o.getObjValD "nk")
+  let auto := (← jNat? (o.getObjValD "auto")) != 0
+  let main ← parseKRows nk (o.getObjValD "main")
+  let arch ← parseKRows nk (o.getObjValD "arch")
+  let table ← jNat? (o.getObjValD "table")
+  let unscoped := (← jNat? (o.getObjValD "unscoped")) != 0
+  let conds ← (← jArr? (o.getObjValD "conds")).toList.mapM parseTriple
+  let txn ← jNat? (o.getObjValD "txconds")
+  let attrs ← (← jArr? (o.getObjValD "attrs")).toList.mapM parsePair
+  let assigns ← (← jArr? (o.getObjValD "assigns")).toList.mapM parsePair
+  let op ← jStr? (o.getObjValD "op")
+  let vals ← parseKRows nk (o.getObjValD "vals")
+  let w : UpsertK.World := { main := main, arch := arch }
+  let qconds := conds.map (fun c => (c.1, c.2.1))
+  let bconds := (conds.filter (fun c => c.2.2 != 0)).map (fun c => (c.1, c.2.1))
+  let st : UpsertK.MStmt := { conds := qconds.take txn, unscoped := unscoped, table := table }
+  let newKey : Option Nat := if auto then some (maxKey (w.tbl table) + 1) else none
+  let kt := UpsertK.genKeyTest
+  let cfg := UpsertK.genNestCfg
+  match op with
+  | "save" | "save2" =>
+    let v ← vals.head?
+    let r1 := UpsertK.saveW kt cfg st w v newKey
+    let u := UpsertK.nest cfg.saveUpdKeeps st
+    let upd := if kt.creates v.key then [] else [updShape u.table u.unscoped (v.key.filter (· != 0)).length]
+    if op == "save" || r1.2 then some (wideOut r1.1 none (if r1.2 then "unique" else "ok") upd)
+    else
+      -- the first Save wrote the key the database handed out back into the value
+      let v2 := if kt.creates v.key then UpsertK.assignKey newKey v else v
+      let r2 := UpsertK.saveW kt cfg st r1.1 v2 newKey
+      some (wideOut r2.1 none (if r2.2 then "unique" else "ok") [])
+  | "saves" =>
+    -- finisher_api.go Save, slice case: one INSERT … ON CONFLICT UpdateAll on the chain's own statement
+    let t := vals.foldl UpsertK.upsertK (w.tbl table)
+    some (wideOut (w.set table t) none "ok" [])
+  | "create" =>
+    let v ← vals.head?
+    let rule ← jStr? (o.getObjValD "rule")
+    let rcols ← parseNats (o.getObjValD "rcols") <|> some []
+    let kr : UpsertK.KRule := match rule with
+      | "nothing" => .doNothing | "all" => .updateAll | "upd" => .doUpdates rcols | _ => .none
+    let r := UpsertK.createK kr (w.tbl table) (UpsertK.assignKey newKey v)
+    some (wideOut (w.set table r.1) none (if r.2 then "unique" else "ok") [])
+  | "foi" =>
+    let out := UpsertK.firstOrInitK nk 2 st qconds bconds attrs assigns w
+    some (wideOut out.world (some out.val) (kErrS out.err) [])
+  | "foc" =>
+    let out := UpsertK.firstOrCreateK cfg nk 2 st qconds bconds attrs assigns newKey w
+    let upd := match UpsertK.firstMatchK st qconds w with
+      | some r =>
+        let n := UpsertK.nest cfg.foundKeeps st
+        if assigns.isEmpty || UpsertK.foundBinds n r = 0 then [] else [updShape n.table n.unscoped (UpsertK.foundBinds n r)]
+      | none => []
+    some (wideOut out.world (some out.val) (kErrS out.err) upd)
+  | _ => none
+
 end HC16
 
 open HC16 in
@@ -251,6 +342,12 @@ def handleC16 (op : String) (args : Array Json) : Option Json := do
       | some o, some p => rowJ sch (oc'.onRow o p)
       | _, _ => Json.null
     some (Json.mkObj [("oc", ocJ oc'), ("render", strListJ oc'.render), ("row", row)])
+  | "c16.wide" => runWide (arg args 1)
+  | "c16.genkeys" =>
+    -- the regenerated key test of Save and the nested-handle facts
+    some (Json.arr #[Json.str (match UpsertK.genKeyTest with | .anyZero => "any" | .allZero => "all" | .unknown => "unknown"),
+      Json.bool UpsertK.genNestCfg.foundKeeps, Json.bool UpsertK.genNestCfg.createKeeps,
+      Json.bool UpsertK.genNestCfg.saveUpdKeeps, Json.bool UpsertK.genNestCfg.saveInsKeeps])
   | "c16.gensave" =>
     some (Json.arr #[Json.bool genSaveCfg.selBySelects, Json.bool genSaveCfg.selByOmits])
   | "c16.genrecvw" =>
